@@ -95,6 +95,23 @@ def build_tool():
     return exe
 
 
+def private_copy(exe):
+    """the build cache prunes old source trees while other checks run; work on a copy of the executable"""
+    d = os.path.join(WORK, "bin")
+    os.makedirs(d, exist_ok=True)
+    dst = os.path.join(d, "%s-%d" % (os.path.basename(exe), os.getpid()))
+    shutil.copyfile(exe, dst)
+    shutil.copymode(exe, dst)
+    for f in os.listdir(d):
+        fp = os.path.join(d, f)
+        try:
+            if fp != dst and os.path.getmtime(fp) < __import__("time").time() - 6 * 3600:
+                os.remove(fp)
+        except OSError:
+            pass
+    return dst
+
+
 def regenerate_table():
     """translator: coq/gen/CliTable.v from the working tree.  returns (ok, message)"""
     spec = importlib.util.spec_from_file_location("clitable", os.path.join(vlib.ROOT, "translator", "clitable.py"))
@@ -1321,8 +1338,10 @@ def run(res, tier, seed, replay_obj=None):
     ok_ext, elog = vlib.coq_make(["Extract/ExtractCli.vo"])
     proof_broken = (not tr_ok) or (not props["ok"]) or bool(res.coverage["forbidden_tokens"])
     runner = vlib.ocaml_runner("cli") if ok_ext else None
-    tool = build_tool()
-    drv = vlib.build_driver("clidrv")
+    if runner is not None:
+        runner = private_copy(runner)
+    tool = private_copy(build_tool())
+    drv = private_copy(vlib.build_driver("clidrv"))
     stale_model = False
     if runner is None and os.path.exists(os.path.join(vlib.ROOT, "ocaml", "_build", "cli")):
         # the regenerated tables no longer fit the model: search for a failing input with the last runner that built
